@@ -419,6 +419,25 @@ def main(argv=None):
             return mod.replay(ctx, json.load(open(a.replay)))
         mod.run(ctx)
         return ctx.finish()
-    except Exception:
+    except Exception as ex:
         traceback.print_exc()
+        # Safety net.  If the implementation itself raised (a frame of the traceback lies in the checked source tree)
+        # and that tree differs from the sources the models were last reconciled with, the correspondence run no
+        # longer completes: that is a broken correspondence, reported as the brief prescribes (VIOLATION ...
+        # no-failing-input-found unless the property module already recorded a failing input).  On the pinned
+        # sources a crash stays what it is: a broken check, exit 2.
+        frames = [f for f in traceback.extract_tb(ex.__traceback__)
+                  if os.path.realpath(f.filename).startswith(os.path.realpath(SRC) + os.sep)]
+        changed = sorted({f for p in SOURCES for f in changed_sources(p)})
+        if frames and changed:
+            try:
+                where = "%s:%d in %s" % (os.path.relpath(frames[-1].filename, SRC), frames[-1].lineno, frames[-1].name)
+                ctx.obligation("correspondence:harness-run-completes", False,
+                               "%s: %s raised at %s while the check was driving the implementation; sources changed "
+                               "since the models were reconciled: %s" % (type(ex).__name__, str(ex)[:200], where,
+                                                                          ", ".join(changed)[:300]),
+                               kind="correspondence")
+                return ctx.finish()
+            except Exception:  # noqa
+                traceback.print_exc()
         return 2
